@@ -154,6 +154,10 @@ func (le *luaEncoder) encodeArray(writer io.Writer, node *CandidateNode) error {
 }
 
 func needsQuoting(s string) bool {
+	// the empty string is not a name
+	if s == "" {
+		return true
+	}
 	// known keywords as of Lua 5.4
 	switch s {
 	case "do", "and", "else", "break",
